@@ -1,7 +1,7 @@
 (* C13/Properties.v -- pinned statements of property C13 (SPARQL evaluation returns exactly the
    algebra's solutions or 'not implemented').  Strings are lists of code points: tag:a is
    [116;97;103;58;97], ... (this file is generated once from readable text, see the comments). *)
-From Sophia.C13 Require Import Model Maps BgpProofs Proofs NumModel NumProofs Eval Exists ExistsProofs ExistsSubst.
+From Sophia.C13 Require Import Model Maps BgpProofs Proofs NumModel NumProofs Eval Exists ExistsProofs ExistsSubst Nested NestedProofs.
 From Coq Require Import Permutation.
 
 (* ===== (1) the engine (after fixes c, d, e) computes the algebra ===== *)
@@ -321,6 +321,86 @@ Proof.
   unfold D2. repeat (constructor; [cbn [In]; intuition discriminate|]). constructor.
 Qed.
 
+
+(* ===== (8) quoted-triple patterns nested in quoted-triple patterns (depth 2, 3, ...) =====
+   The engine matches in two phases: the SparqlMatcher built from the pattern under the current
+   binding filters the triples (matcher.rs), then populate_bindings walks the pattern and the
+   accepted triple side by side WITHOUT comparing constants and unwrapping quoted triples
+   (binding.rs).  [pmatch] is one unification walk (the Rust oracle's `unify`). *)
+(* a quoted-triple pattern, ground or not, at any depth and under any binding, accepts exactly the
+   quoted triples whose components its component matchers accept: an inner non-ground pattern
+   is never a wildcard *)
+Check (quoted_pattern_matches_componentwise : forall s p o b t,
+  m_matches (build (PTrip s p o) b) t = true <->
+  exists ts tp to, t = Triple ts tp to /\ m_matches (build s b) ts = true
+                   /\ m_matches (build p b) tp = true /\ m_matches (build o b) to = true).
+(* filter-by-matcher then populate = unification, for every pattern, term and current binding *)
+Check (engine_match_is_unification : forall p t b, engine_match p t b = pmatch p t b).
+Check (engine_match3_is_unification : forall tp m b, engine_match3 tp m b = pmatch3 tp m b).
+(* unification yields exactly the extensions of the binding that instantiate the pattern to the
+   term (18.3), binding the atoms of the pattern and nothing else *)
+Check (pmatch_sound : forall p t b b',
+  pmatch p t b = Some b' -> ext b b' /\ inst p b' = Some t /\ dom_add b b' (atoms p)).
+Check (pmatch_complete : forall p t b r,
+  ext b r -> inst p r = Some t -> exists b', pmatch p t b = Some b' /\ ext b' r).
+(* a pattern with d levels of quoted-triple structure never matches a term with fewer levels *)
+Check (pmatch_depth : forall p t b b', pmatch p t b = Some b' -> (sdepth p <= tdepth t)%nat).
+Check (engine_match_depth : forall p t b b',
+  engine_match p t b = Some b' -> (sdepth p <= tdepth t)%nat).
+(* one step of bgp_rec over the triples of the active graph, written with unification *)
+Check (bgp_rec_unify : forall G gm first rest b,
+  bgp_rec (qmG G) (first :: rest) b gm =
+  if all_bound3 (build3 first b)
+  then (if existsb (matches3 (build3 first b)) G then bgp_rec (qmG G) rest b gm else [])
+  else flat_map (unify_step (fun b' => bgp_rec (qmG G) rest b' gm) first b) G).
+(* non-vacuity.  P2 = << << ?a <tag:p> ?c >> ?q ?o >>, P3 = << <tag:d> <tag:p> P2 >>; the terms
+   differ from an instance of the pattern at ONE place of the INNER quoted triple *)
+Definition td := Iri [116;97;103;58;100].
+Definition vc_ := [99]. Definition vq_ := [113]. Definition vz_ := [122].
+Definition P2 : tpat := PTrip (PTrip (pv va_) (PConst tp) (pv vc_)) (pv vq_) (pv vo_).
+Definition P3 : tpat := PTrip (PConst td) (PConst tp) P2.
+(* << << ?a <tag:p> <tag:b> >> <tag:q> <tag:c> >> *)
+Definition PS2 : tpat := PTrip (PTrip (pv va_) (PConst tp) (PConst tb)) (PConst tq) (PConst tc).
+Definition T2 (inner : term) : term := Triple inner tq tc.
+Definition T3 (inner : term) : term := Triple td tp (T2 inner).
+Definition tz (k : N) : term := Iri [116;97;103;58;122;k].
+(* default graph: z1 the instance; z2 inner predicate differs; z3 an atom where the pattern has a
+   quoted triple; z4 depth 1; z5..z7 the same at depth 3, in object position *)
+Definition DN : dataset :=
+  [((T2 (Triple ta tp tb), tq, tz 49), None); ((T2 (Triple ta tq tb), tq, tz 50), None);
+   ((T2 ta, tq, tz 51), None); ((Triple ta tp tb, tq, tz 52), None);
+   ((tz 53, tp, T3 (Triple ta tp tb)), None); ((tz 54, tp, T3 (Triple ta tq tb)), None);
+   ((tz 55, tp, T3 ta), None); ((tz 56, tp, T2 (Triple ta tp tb)), None);
+   ((ta, tp, tb), None)].
+Example nested_patterns_example :
+  ground P2 = false /\ sdepth P2 = 2%nat /\ sdepth P3 = 3%nat
+  /\ engine_match P2 (T2 (Triple ta tp tb)) empty_binding
+     = Some (mkB [(va_, ta); (vc_, tb); (vo_, tc); (vq_, tq)] [])
+  /\ engine_match P2 (T2 (Triple ta tq tb)) empty_binding = None
+  /\ engine_match P2 (T2 ta) empty_binding = None
+  /\ engine_match P2 (Triple ta tp tb) empty_binding = None
+  /\ engine_match P3 (T3 (Triple ta tp tb)) empty_binding
+     = Some (mkB [(va_, ta); (vc_, tb); (vo_, tc); (vq_, tq)] [])
+  /\ engine_match P3 (T3 (Triple ta tq tb)) empty_binding = None
+  /\ engine_match P3 (T3 ta) empty_binding = None
+  /\ engine_match P3 (T2 (Triple ta tp tb)) empty_binding = None
+  (* an inner variable bound earlier: ?c -> tag:c *)
+  /\ engine_match P2 (T2 (Triple ta tp tb)) (mkB [(vc_, tc)] []) = None
+  (* the whole queries: SELECT ?z { P2 <tag:q> ?z }, SELECT ?z { ?z <tag:p> P3 },
+     SELECT ?z { ?a <tag:p> ?c . ?z <tag:p> P3 }, ASK { P2 <tag:q> <tag:z3> } *)
+  /\ run_query CL DN (QSelect None (Project (Bgp [(P2, PConst tq, pv vz_)]) [vz_])) = ARows [vz_] [[Some (tz 49)]]
+  /\ run_query CL DN (QSelect None (Bgp [(PS2, PConst tq, pv vz_)])) = ARows [va_; vz_] [[Some ta; Some (tz 49)]]
+  /\ spec CL DN (Bgp [(PS2, PConst tq, pv vz_)]) None = [[(va_, ta); (vz_, tz 49)]]
+  /\ run_query CL DN (QSelect None (Project (Bgp [(pv vz_, PConst tp, P3)]) [vz_])) = ARows [vz_] [[Some (tz 53)]]
+  /\ run_query CL DN (QSelect None (Project (Bgp [(pv va_, PConst tp, pv vc_); (pv vz_, PConst tp, P3)]) [vz_]))
+     = ARows [vz_] [[Some (tz 53)]]
+  /\ run_query CL DN (QAsk None (Bgp [(P2, PConst tq, PConst (tz 51))])) = ABool false
+  /\ NoDup DN.
+Proof.
+  repeat (split; [vm_compute; reflexivity|]).
+  unfold DN. repeat (constructor; [cbn [In]; intuition discriminate|]). constructor.
+Qed.
+
 Print Assumptions bgp_rec_is_spec.
 Print Assumptions select_correct.
 Print Assumptions select_query_correct.
@@ -383,3 +463,12 @@ Print Assumptions ceval_subst.
 Print Assumptions exists_is_substitution.
 Print Assumptions not_exists_is_substitution.
 Print Assumptions exists_spec_example.
+Print Assumptions quoted_pattern_matches_componentwise.
+Print Assumptions engine_match_is_unification.
+Print Assumptions engine_match3_is_unification.
+Print Assumptions pmatch_sound.
+Print Assumptions pmatch_complete.
+Print Assumptions pmatch_depth.
+Print Assumptions engine_match_depth.
+Print Assumptions bgp_rec_unify.
+Print Assumptions nested_patterns_example.
